@@ -26,55 +26,6 @@ Definition guard_limit_order (m : bmap) (p : list byte) (limit : N) : bool :=
   let l := N.to_nat limit in
   (0 <? l) && (l <? length M) && existsb (fun k => bytes_prefix k (nth l M [])) (firstn l M).
 
-(* finding get-exhausted-key: the lookup path uses up the key exactly on entering a branch that has
-   a non-empty partial key and a value (retrieveFromBranch: len(key) == 0 returns the value) *)
-Fixpoint get_exhausted (t : tnode) (k : key) {struct t} : bool :=
-  match t with
-  | Leaf _ _ => false
-  | Branch pk ov cs =>
-    if length k =? 0 then negb (length pk =? 0) && is_some ov
-    else if key_eqb pk k then false
-    else if negb (is_prefix pk k) then false
-    else
-      let n := cpl pk k in
-      let ck := skipn (S n) k in
-      (fix go (l : list (option tnode)) (i : nat) {struct l} : bool :=
-         match l with
-         | [] => false
-         | oc :: r =>
-           match i with
-           | O => match oc with None => false | Some c => get_exhausted c ck end
-           | S j => go r j
-           end
-         end) cs (nth n k 0)
-  end.
-Definition guard_get_exhausted (t : trie) (k : list byte) : bool :=
-  match t with None => false | Some n => get_exhausted n (key_le_to_nibbles k) end.
-
-(* finding delete-exhausted-key: same path, deleteLeaf / deleteBranch treat len(key) == 0 as a match *)
-Fixpoint delete_exhausted (t : tnode) (k : key) {struct t} : bool :=
-  match t with
-  | Leaf pk _ => (length k =? 0) && negb (length pk =? 0)
-  | Branch pk ov cs =>
-    if length k =? 0 then negb (length pk =? 0) && is_some ov
-    else if key_eqb pk k then false
-    else if cpl pk k <? length pk then false
-    else
-      let n := cpl pk k in
-      let ck := skipn (S n) k in
-      (fix go (l : list (option tnode)) (i : nat) {struct l} : bool :=
-         match l with
-         | [] => false
-         | oc :: r =>
-           match i with
-           | O => match oc with None => false | Some c => delete_exhausted c ck end
-           | S j => go r j
-           end
-         end) cs (nth n k 0)
-  end.
-Definition guard_delete_exhausted (t : trie) (k : list byte) : bool :=
-  match t with None => false | Some n => delete_exhausted n (key_le_to_nibbles k) end.
-
 (* 0 = no guard; otherwise the number of the finding class the operation lies in *)
 Definition guard_of (m : bmap) (t : trie) (o : op) : nat :=
   match o with
